@@ -149,6 +149,24 @@ package mqttproxy
 //     keys, the loop looked up bare client ids, every client was closed); an id
 //     whose key was missing then (deleted, or not stored yet) is not judged.
 //     Deletions while the watch is down produce no event.
+//   * gap_delete: an admin DELETE of the session of a connected client (the
+//     contested id or a bystander) issued from inside the simulated store between
+//     the two storage calls of Broker.reconnectWatcher (new watch / listing of
+//     the keys, whatever their order): the deletion is in the listing or is
+//     reported by the new watch, so the client registered at that moment has to
+//     be closed or unregistered (polled up to the usual time-out):
+//     C16.admin-delete.lost-during-watch-reconnect. The contested id is not
+//     judged by the survivor's checks afterwards.
+//   * store_quiet (a recipe with a slow storage and connections that end right
+//     behind their last acknowledged (un)subscribe, and 30 % of the runs with
+//     storage latency): every reconnect first waits until the storage has caught
+//     up (no get/put/delete in flight or started during 21 polls of 1 s; at most
+//     20 scheduler stalls per run). A subscription missing from / left over in a
+//     session restored from the storage is then NOT the known store lag (SUBACK
+//     before persistence; the snapshot arrives late but arrives) but a snapshot
+//     that never arrived: C16.reconnect.subscription-never-persisted,
+//     C16.reconnect.unsubscribe-never-persisted (only without injected storage
+//     errors, watch breaks and broker-side deletions of the key).
 //   * F5: a session holding QoS0 and QoS>=1 filters gets a second probe round
 //     with QoS1 messages: every firm filter subscribed with QoS>=1 must deliver
 //     (C16.subscription-qos-lost, C16.reconnect.subscription-qos-not-restored);
@@ -3340,6 +3358,7 @@ func TestVerifC16(t *testing.T) {
 			"CONNACK session-present flag (probe only) and SUBACK return codes not checked",
 			"refused connection attempts (bad auth/protocol/first packet) are not takeovers; an id whose session key is missing when the delete watch is re-established, and a bystander deleted by an admin request, are not judged",
 			"QoS1 probe round in mixed-QoS sessions requires delivery only through filters subscribed with QoS>=1 (inherited ones only if never asked for with QoS0); burst check only in all-QoS1 runs with an acknowledging survivor, link latency capped at 5 ms there",
+			"an admin delete placed between the two storage calls of the watch re-establishment must disconnect the client registered at that moment (the contested id is then not judged further); *-never-persisted classes only when every reconnect waited for the storage to catch up (21 idle polls), no storage error, no watch break, no broker-side deletion of the key",
 			"maxAllowedConnection / rate limits are only set to values that never bind; binding caps, empty client id, two brokers on one store, admin delete of the contested id racing scripted connects are not generated",
 		},
 	})
